@@ -22,10 +22,10 @@ Theorem min_gen_set_option_is_sound_walks (J : kfdc_inst) (P : N -> list node) (
   (forall k, status k = MgOptimal -> exists a, sat a (encode_mgs I k)) ->
   (forall k, status k = MgInfeasible -> forall a, ~ sat a (encode_mgs I k)) ->
   mgsm_loop status lb n extra = (tried, Some m) ->
-  (lb <= c_k J)%nat ->
+  (lb <= c_k J)%nat -> (1 <= c_k J)%nat ->
   (m <= c_k J)%nat.
 Proof.
-  intros G E s t D WF S1 S2 S3 Hparts Hmult Hint HM Hnum Htot Hopt Hinf Hloop Hlb.
+  intros G E s t D WF S1 S2 S3 Hparts Hmult Hint HM Hnum Htot Hopt Hinf Hloop Hlb Hk1.
   destruct (min_gen_set_bound_walks J P wt (mg_mult I) (kept_edges J) D WF S1 S2 S3 HM (fun e He => He))
     as (g & Hlen & (Hnn & Hsum & Hgen) & Hgint).
   set (k := c_k J) in *.
@@ -42,5 +42,5 @@ Proof.
     - unfold parts_of. rewrite Hparts. constructor. }
   destruct (mgs_returns_minimum I status Hparts Hmult Hopt Hinf lb n extra tried m Hloop) as (_ & _ & Hmin).
   destruct (le_lt_dec m k) as [Hle|Hgt]; [exact Hle|exfalso].
-  exact (Hmin k g' (conj Hlb Hgt) Hlen' Hgs).
+  exact (Hmin k g' (conj (Nat.max_lub _ _ _ Hk1 Hlb) Hgt) Hlen' Hgs).
 Qed.
